@@ -36,6 +36,7 @@ fn init_text(t: &[String]) -> String {
         "char8" => "'a'".to_string(),
         "S" => "S { x: 1 }".to_string(),
         "W" => "W { a: 1, b: 2 }".to_string(),
+        "T" => "T { kind: 1 }".to_string(),
         "ptr" | "slice" | "endless" | "like" | "void" => "0".to_string(),
         _ => "1".to_string(),
     }
@@ -44,7 +45,7 @@ fn init_text(t: &[String]) -> String {
 fn bits_of(leaf: &str) -> Option<usize> {
     Some(match leaf {
         "i8" | "u8" | "bool" | "char8" => 8,
-        "i16" | "u16" => 16,
+        "i16" | "u16" | "T" => 16,
         "i32" | "u32" | "W" => 32,
         "i64" | "u64" => 64,
         "i128" | "u128" => 128,
@@ -59,6 +60,9 @@ fn prelude(t: &[String]) -> String {
     }
     if t.iter().any(|x| x == "W") {
         s.push_str("word32 W { a: i16, b: i16, }\n");
+    }
+    if t.iter().any(|x| x == "T") {
+        s.push_str("word16 T { kind: u8, }\n");
     }
     if t.iter().any(|x| x == "narr") {
         s.push_str("const N: usize = 3;\n");
